@@ -235,6 +235,13 @@ def errclass(e):
     return "-".join(m[:3]) if m else "none"
 
 
+def run_growth_versionbits(c, tier):
+    """Spec growth beyond the listed properties (DESIGN.md 3.7): soft-fork deployment state machine, Versionbits.tla bound
+    to the real Versionbits code (checks/g_versionbits.py). Numbers land in coverage["growth_versionbits"]."""
+    import g_versionbits
+    return g_versionbits.run(c, tier)
+
+
 def run(tier):
     c = V.Check(PID, "model_checking", tier)
     c.rule = ("cases = (context prefix, candidate block) pairs judged by the spec and submitted as real blocks; non-trivial = "
@@ -286,6 +293,7 @@ def run(tier):
         if class_mismatch:
             V.log("error-class mismatches: %s" % json.dumps(class_mismatch[:10]))
             raise V.ToolError("%d refusals carried an unexpected error class (probe not realised faithfully?)" % len(class_mismatch))
+    run_growth_versionbits(c, tier)
     return c.finish()
 
 
@@ -293,6 +301,10 @@ def replay(path, tier):
     c = V.Check(PID, "model_checking", tier)
     r = json.load(open(path))
     p = r["payload"]
+    if p.get("kind") == "growth_versionbits":
+        import g_versionbits
+        g_versionbits.replay(c, p)
+        return 1 if c.violations else 0
     if p.get("kind") == "model":
         res = V.tlc(PID, "MC_ConsensusRules", p["cfg"], workers=8)
         if res["violated"]:
